@@ -111,7 +111,9 @@ class P(ServeProp):
                 return "no-complete-response"
             return None
         pc = gs.parse_case(line)
-        meth = pc["req"].split(b" ")[0]
+        # the method as the parser sees it: the request line is trimmed of Unicode white space first (U+2028 before "HEAD")
+        meth = pc["req"].split(b"\n")[0].decode("utf-8", "replace")
+        meth = httpcanon.rust_trim(meth).split(" ")[0].encode()
         cl = httpcanon.header(r, "Content-Length")
         if cl and meth not in (b"HEAD", b"OPTIONS", b"head", b"options") and cl[0] != str(len(r["body"])):
             return "content-length-does-not-match-body"
